@@ -161,6 +161,8 @@ def main(chk):
     k3(chk, ir, native, z, quick)
     # ---- K4: orchestration of divide_cell around its (stubbed) stages -----------------------------------------------------------------
     k4(chk, ir, z, quick)
+    # ---- K5: cell_divider::run on a population, every subset of ready cells and of successful divisions --------------------------------
+    k5(chk, ir, native, z, quick)
     chk.log('%d obligations' % len(jobs))
     outs = par.prove_all(z, jobs, procs=14)
     for job, (st, model, dt) in zip(jobs, outs):
@@ -325,6 +327,155 @@ def k4(chk, ir, z, quick):
                         unchanged = mother_i == ref[0] and all((a is b) or (a == b) for a, b in zip(mother_d[:-2], ref[1])) and (mother_d[-2] is Vt)
                         chk.ob(tag + '/the surface and the target volume of the mother are untouched', 'proved' if unchanged else 'violated', True, 0)
                         if not unchanged: chk.violation('C09/orchestration/mother modified by divide_cell', tag, {'class': cls, 'stage': stage, 'kind': kind})
+    chk.functions |= sess.functions_called
+
+def build_native_k5():
+    """native replay binary for K5: the repository objects with cell_divider::divide_cell weakened in the object that defines it, linked with the
+    harness compiled with -DK5_NATIVE_OVERRIDE (which defines that symbol as a call of the contract stand-in). Rebuilt whenever librepo.a is."""
+    import hashlib, shutil, subprocess
+    lib = build.build_native_lib()
+    hfiles = [os.path.join(build.VERIF, 'harness', f) for f in ('h_divide.cpp', 'common.hpp', 'native_main.cpp')]
+    h = hashlib.sha1()
+    h.update(lib.encode()); h.update(str(os.path.getmtime(lib)).encode())
+    for f in hfiles: h.update(open(f, 'rb').read())
+    d = os.path.join(build.CACHE, 'k5nat_' + h.hexdigest()[:20])
+    out = os.path.join(d, 'replay')
+    with build.Lock(d + '.lock'):
+        if os.path.exists(out): return out
+        tmp = d + '.tmp%d' % os.getpid()
+        shutil.rmtree(tmp, ignore_errors=True); os.makedirs(tmp)
+        lib2 = os.path.join(tmp, 'librepo_k5.a')
+        shutil.copy(lib, lib2)
+        members = subprocess.run(['ar', 't', lib2], capture_output=True, text=True, check=True).stdout.split()
+        mem = [m for m in members if m.endswith('cell_divider.o')]
+        if len(mem) != 1: raise RuntimeError('cell_divider object not found in %s: %r' % (lib, mem))
+        subprocess.run(['ar', 'x', lib2, mem[0]], cwd=tmp, check=True)
+        syms = subprocess.run(['nm', '--defined-only', os.path.join(tmp, mem[0])], capture_output=True, text=True, check=True).stdout.split('\n')
+        dem = subprocess.run(['c++filt'], input='\n'.join(x.split()[-1] if x.split() else '' for x in syms), capture_output=True, text=True).stdout.split('\n')
+        target = [x.split()[-1] for x, dd in zip(syms, dem) if dd.startswith('cell_divider::divide_cell(') and '.' not in x.split()[-1]]
+        if len(target) != 1: raise RuntimeError('divide_cell symbol: %r' % (target,))
+        subprocess.run(['objcopy', '--weaken-symbol=' + target[0], os.path.join(tmp, mem[0])], check=True)
+        subprocess.run(['ar', 'r', lib2, mem[0]], cwd=tmp, check=True, capture_output=True)
+        inc = build.include_flags()
+        objs = []
+        for src in hfiles:
+            if src.endswith('.hpp'): continue
+            o = os.path.join(tmp, os.path.basename(src).replace('.cpp', '.o'))
+            build.run([build.GXX] + build.GXX_FLAGS + ['-DIRSYM_NATIVE', '-DK5_NATIVE_OVERRIDE'] + inc + ['-c', src, '-o', o]); objs.append(o)
+        build.run([build.GXX, '-fopenmp', '-o', os.path.join(tmp, 'replay')] + objs + [lib2, '-lstdc++fs'])
+        for f in objs + [lib2, os.path.join(tmp, mem[0])]: os.remove(f)
+        os.rename(tmp, d)
+        return out
+
+def k5_eval(iout, n, off):
+    """expected outcome of cell_divider::run from its own call log: returns (problems, called, divided)"""
+    it = list(iout)
+    nc = it[0]; calls = [(it[1 + 2 * k], it[2 + 2 * k]) for k in range(nc)]
+    q = 1 + 2 * nc
+    max_id, size = it[q], it[q + 1]
+    rows = [tuple(it[q + 2 + 5 * j: q + 7 + 5 * j]) for j in range(size)]
+    called = [m for m, _ in calls]
+    divided = sorted(m for m, ok in calls if ok)
+    probs = []
+    if len(set(called)) != len(called): probs.append(('a cell is divided more than once in one call', 'divide_cell calls %r' % (calls,)))
+    if size != n + len(divided): probs.append(('population size', '%d cells after %d of %d divided (expected %d)' % (size, len(divided), n, n + len(divided))))
+    if max_id != off + n + 2 * len(divided): probs.append(('id counter', 'next id %d after %d divisions (was %d)' % (max_id, len(divided), off + n)))
+    present = [r[2] for r in rows if r[2] >= 0]
+    for i in range(n):
+        k = present.count(i)
+        if i in divided and k: probs.append(('the mother stays in the population', 'cell %d divided but is still in the list (%d faces left)' % (i, [r[4] for r in rows if r[2] == i][0])))
+        if i not in divided and k != 1: probs.append(('a cell that did not divide is dropped or duplicated', 'cell %d did not divide and appears %d times in the list' % (i, k)))
+    if present != sorted(present): probs.append(('order of the cells that did not divide', 'originals now in the order %r' % (present,)))
+    for i in range(n):
+        k = sum(1 for r in rows if r[3] == i)
+        if k != (2 if i in divided else 0): probs.append(('the mother is not replaced by exactly two daughters', '%d daughters of cell %d in the list (%s)' % (k, i, 'divided' if i in divided else 'did not divide')))
+    ids = [r[0] for r in rows]
+    if len(set(ids)) != len(ids): probs.append(('ids not unique', 'ids %r' % (ids,)))
+    for j, r in enumerate(rows):
+        if r[1] != j: probs.append(('local id is not the list position', 'cell at position %d has local id %d' % (j, r[1])))
+        if r[2] >= 0 and r[0] != off + r[2]: probs.append(('id of a cell that did not divide changed', 'cell %d now has id %d (was %d)' % (r[2], r[0], off + r[2])))
+        if r[2] < 0 and r[3] < 0: probs.append(('unknown cell in the population', 'position %d' % j))
+        if r[3] >= 0 and not (off + n <= r[0] < max_id): probs.append(('daughter id not fresh', 'daughter of %d has id %d' % (r[3], r[0])))
+        if r[4] < 4: probs.append(('emptied cell left in the population', 'cell at position %d (id %d) has %d faces' % (j, r[0], r[4])))
+    return probs, called, divided
+
+def k5(chk, ir, native, z, quick):
+    """the real cell_divider::run on n epithelial cells; divide_cell replaced by its contract (k5_divide_cell). The volume of every cell and a
+    success selector per cell are symbolic, so every subset of ready cells and every subset of successful divisions is a feasible path."""
+    import subprocess
+    mod = api.load_module(ir)
+    names = list(mod.funcs)
+    dem = subprocess.run(['c++filt'], input='\n'.join(names), capture_output=True, text=True).stdout.split('\n')
+    real = [n_ for n_, d in zip(names, dem) if d.startswith('cell_divider::divide_cell(')]
+    stub = [n_ for n_, d in zip(names, dem) if d.startswith('k5_divide_cell(')]
+    if len(real) != 1 or len(stub) != 1:
+        chk.fail_closed.append('K5: divide_cell / k5_divide_cell symbols not found (%r, %r)' % (real, stub)); return
+    ov = {real[0]: (lambda it, a, s_=stub[0]: it.call_function(s_, a))}
+    sess = api.Session(ir, mode='real', overrides=ov)
+    chk.assumptions += ['K5: divide_cell replaced by its contract (two fresh cells of the class of the mother or nothing; K1-K4 are about the real one); the OpenMP loop of '
+                        'cell_divider::run is executed by one thread in list order (C15 decides the completion orders)']
+    cases = [(1, 0), (2, 0), (3, 5)] if quick else [(1, 0), (2, 0), (3, 5), (4, 2)]
+    k5nat = [None]
+    for (n, off) in cases:
+        Vs = [S.var('k5v%d' % i) for i in range(n)]; Ss = [S.var('k5s%d' % i) for i in range(n)]
+        ctl, res = sess.explore('h_c09_run', Vs + Ss, [n, off], assumptions=[], zctx=z, max_paths=3 ** n + 8, branch_timeout_ms=5000)
+        chk.paths += ctl.paths_done
+        tag = 'K5 cell_divider::run/%d cells, ids ahead of positions by %d' % (n, off)
+        done = [(tr, pc, r) for (tr, pc, r) in res if getattr(r, 'status', None) != 'pathend']
+        if not ctl.exhausted or not done:
+            chk.fail_closed.append(tag + ': exploration incomplete'); continue
+        subsets = set()
+        for (tr, pc, r) in done:
+            if r.status != 'ok':
+                chk.fail_closed.append(tag + ': path ended with %s %r' % (r.status, getattr(r, 'error', None))); continue
+            iout = []
+            bad = False
+            for v in r.iout:
+                if isinstance(v, S.Node):
+                    w = None
+                    for cand in (1, 0):
+                        st_, _ = SV.prove(z, list(pc), S.cmp('eq', v, S.iconst(cand, v.width)) if v.sort == 'I' else (v if cand else S.bnot(v)), 5000)
+                        if st_ == 'proved': w = cand; break
+                    if w is None: bad = True; break
+                    iout.append(w)
+                else: iout.append(v)
+            if bad:
+                chk.fail_closed.append(tag + ': an output is not determined by the path'); continue
+            probs, called, divided = k5_eval(iout, n, off)
+            sub = (tuple(sorted(called)), tuple(divided)); subsets.add(sub)
+            name = tag + '/ready %r, divisions that succeed %r' % (sorted(called), divided)
+            # the path condition is what made these cells ready and these divisions succeed
+            law = S.TRUE
+            for i in range(n):
+                law = S.band(law, S.bnot(S.bxor(S.TRUE if i in called else S.FALSE, S.cmp('ge', Vs[i], S.const(1)))))
+                if i in called: law = S.band(law, S.bnot(S.bxor(S.TRUE if i in divided else S.FALSE, S.cmp('gt', Ss[i], S.ZERO))))
+            st1, m1 = SV.prove(z, list(pc), law, 10000)
+            chk.ob(name + '/divide_cell is called exactly for the cells with V >= V_div', st1, True, 0)
+            stw, mw = SV.satisfiable(z, list(pc), 5000)
+            model = m1 if st1 == 'violated' else mw
+            chk.ob(name + '/mothers replaced by two daughters each, the other cells kept, ids unique and fresh, local ids = positions', 'violated' if probs else 'proved', True, 0,
+                   {'problems': [p_[1] for p_ in probs][:6]})
+            if probs or st1 == 'violated':
+                g = lambda nm_, d_: float(Fraction((model or {}).get(nm_, d_)))
+                din = [g('k5v%d' % i, 2.0 if i in called else 0.5) for i in range(n)] + [g('k5s%d' % i, 1.0 if i in divided else -1.0) for i in range(n)]
+                if k5nat[0] is None: k5nat[0] = api.Native(build_native_k5())
+                q = k5nat[0].call('h_c09_run', din, [n, off])
+                if q.get('status') == 0 and q['i']:
+                    nprobs, ncalled, ndiv = k5_eval(q['i'], n, off)
+                    want_called = [i for i in range(n) if din[i] >= 1.0]
+                    if sorted(ncalled) != want_called: nprobs.append(('divide_cell not called exactly for the cells with V >= V_div', 'called for %r, ready %r' % (sorted(ncalled), want_called)))
+                    if nprobs:
+                        chk.violation('C09/run/%s' % nprobs[0][0], '%s: %s' % (name, '; '.join(p_[1] for p_ in nprobs[:4])),
+                                      {'din': din, 'iin': [n, off], 'native iout': q['i'], 'how': 'harness h_c09_run (/verif/harness/h_divide.cpp); native build: the compiled cell_divider::run of the repository, with the divide_cell symbol weakened in its object and the contract stand-in k5_divide_cell linked in its place'})
+                    else:
+                        chk.fail_closed.append(name + ': irsym reports %r, native run agrees with the expectation' % ([p_[1] for p_ in probs][:2],))
+                else:
+                    chk.fail_closed.append(name + ': native replay failed (%r)' % (q.get('status'),))
+        want = 3 ** n
+        if len(subsets) != want:
+            chk.fail_closed.append(tag + ': %d of %d (ready, successful) subsets reached' % (len(subsets), want))
+        chk.witnesses += len(subsets)
+    if k5nat[0] is not None: k5nat[0].close()
     chk.functions |= sess.functions_called
 
 def sum_(PT, k):
